@@ -395,6 +395,10 @@ def genInstruction (tf : TypeEnv) (ctx : Ctx) (d : Data) : Xml → Except GenErr
           | .error m => .error m
           | .ok (d, ro, rd, sc, dc) =>
             let hasCase := children.any (·.tag == "case")
+            -- `generate_unmatched_guard`: without a default case, an `else:` branch refuses case data
+            let hasDefault := children.any (fun c => c.tag == "case" && c.getBool "default")
+            let sc := if hasCase && !hasDefault then sc ++ [⟨none, .expectNone dataField⟩] else sc
+            let d := if hasCase && !hasDefault then { d with imports := d.imports ++ serErrImport } else d
             let d := if hasCase then { d with ser := d.ser ++ [.switch fieldName sc], de := d.de ++ [.switch fieldName dc] } else d
             .ok ({ ctx with reachedOptional := ro, reachedDummy := rd }, d)
     else if tag == "chunked" then
